@@ -491,7 +491,9 @@ HookFires ==
 Tick ==
   /\ now < Horizon
   /\ status = "running" /\ phase = "run" /\ NonTerminating(prog.body, W)
-  /\ InBody \/ (InPF /\ Top.k # "xpfe") \/ \E i \in DOMAIN stack : stack[i].k = "loop"   \* entering the wrappers takes no time
+  \* entering the wrappers takes no time; neither does the statement of a catch-and-continue loop - time passes
+  \* between the iterations of a loop whose iterations end by themselves (an endless body is where the time goes)
+  /\ InBody \/ (InPF /\ Top.k # "xpfe") \/ (prog.body \notin Infinite /\ \E i \in DOMAIN stack : stack[i].k = "loop")
   /\ Counting => checked
   /\ now' = now + 1 /\ checked' = FALSE
   /\ UNCHANGED <<prog, status, phase, stack, err, hooked, limit, budget, swallowed, rec, spin, py>>
